@@ -2503,6 +2503,7 @@ ASSUMED_MODELS = ["str.split('/') = SEGS, '/'.join = JOINS (uninterpreted; repla
                   "int.from_bytes / struct.unpack on (clamped) slices", "bytes.startswith / == on byte strings",
                   "round 7 (accessor / helper contracts, contracts/c14_access.py): str.strip = STRIP, str.lower = LOWER (uninterpreted functions; "
                   "validated natively on part names and content types of every casing)",
+                  "mimetypes.guess_type(path) = (MIME(path) or None, encoding): uninterpreted answer in the contract of open_office/_shared.guess_content_type",
                   "io.BytesIO stream model: a stream is (content, position); BytesIO(b) / BytesIO() / BytesIO(None) hold b / nothing at position 0; seek(n) sets "
                   "the position; any other stream operation is outside the model (-> unknown); replay reads every accessor's stream twice",
                   "data_types._odf_length_to_px AT ITS CALL SITE in OpenDocumentImage.get_metadata: None for None (implied by the verified contract), result == PX(argument) for a str (determinism only); "
